@@ -14,7 +14,10 @@ from vlib import build as B, scm
 HERE = os.path.dirname(os.path.abspath(__file__))
 HARNESS = os.path.join(HERE, "..", "harness")
 
-IMPORTS = ("(import (only (chibi io) utf8->string!) (only (chibi) string-cursor-start string-cursor-end "
+IMPORTS = ("(import (only (chibi io) make-custom-binary-input-port) (only (chibi filesystem) open open/read open/write open/create open/truncate "
+           "open-input-file-descriptor open-output-file-descriptor) (scheme file))"
+           "(import (only (chibi string) string-join) (prefix (only (srfi 130) string-join) s130:) (only (chibi) string-concatenate))"
+           "(import (only (chibi io) utf8->string!) (only (chibi) string-cursor-start string-cursor-end "
            "string-cursor-next string-cursor-prev string-cursor-ref string-cursor<? string-cursor>? "
            "string-cursor->index string-index->cursor))")
 
@@ -220,10 +223,29 @@ def inner_cases(ctx, n):
                             cs, i = a + [old] + b, len(a)
                         st, off, size = store_of(cs, shared)
                         cases.append(("set", st, off, size, cs, (cow, i, new)))
+    # string-concatenate with a separator: every separator width class, empty, #f, mixed x 0/1/2/many strings
+    def join_case(seps, strs, shared=None):
+        sep = None
+        if seps is not None:
+            st, off, size = store_of(seps, shared)
+            sep = (st, off, size, seps)
+        parts = []
+        for cs in strs:
+            st, off, size = store_of(cs, shared)
+            parts.append((st, off, size, cs))
+        return ("join", [0], 0, 0, [], (sep, parts))
+
+    for seps in ([None, []] + [[c] for w in (1, 2, 3, 4) for c in BY_WIDTH[w][:2]] +
+                 [[0x2192, 0x20], [0x61, 0x1F600], [0x3BB, 0x3BB, 0x3BB], [0x10FFFF, 0x7F, 0x80, 0x800]]):
+        for k in (0, 1, 2, 3, 6):
+            for shared in (False, True):
+                cases.append(join_case(seps, [rand_cps(rng, 5) for _ in range(k)], shared))
+                if k >= 2:
+                    cases.append(join_case(seps, [[]] * k, shared))       # empty strings: separators only
     for _ in range(n):
         cs = rand_cps(rng)
         st, off, size = store_of(cs)
-        op = rng.choice(["len", "i2c", "c2i", "ref", "next", "prev", "set", "set", "sub", "sub", "cat", "mk"])
+        op = rng.choice(["len", "i2c", "c2i", "ref", "next", "prev", "set", "set", "sub", "sub", "cat", "mk", "join"])
         L = len(cs)
         idx = rng.choice([0, L, L - 1, L + 1, -1, rng.randrange(0, L + 1), rng.randrange(0, L + 2)])
         if op == "len":
@@ -251,6 +273,9 @@ def inner_cases(ctx, n):
             cases.append((op, st, off, size, cs, (st2, off2, size2, cs2)))
         elif op == "mk":
             cases.append((op, [0], 0, 0, [], (rng.choice([0, 1, 2, 3, 7]), rand_cp(rng))))
+        elif op == "join":
+            seps = rng.choice([None, [], [rand_cp(rng)], [rand_cp(rng)], rand_cps(rng, 4)])
+            cases.append(join_case(seps, [rand_cps(rng, 6) for _ in range(rng.choice([0, 1, 2, 2, 3, 4, 7]))]))
     return cases
 
 
@@ -269,6 +294,19 @@ def inner_line(c):
         return head + " %s %x %x" % (hx(a[0]), a[1], a[2])
     if op == "mk":
         return "mk %x %x" % a
+    if op == "join":
+        sep, parts = a
+        return ("join %x %s %s" % (len(parts), "# 0 0" if sep is None else "%s %x %x" % (hx(sep[0]), sep[1], sep[2]),
+                                   " ".join("%s %x %x" % (hx(q[0]), q[1], q[2]) for q in parts))).strip()
+
+
+def intercalate(seps, lists):
+    out = []
+    for k, l in enumerate(lists):
+        if k:
+            out += seps
+        out += l
+    return out
 
 
 def inner_judge(c, out):
@@ -332,6 +370,11 @@ def inner_judge(c, out):
             eb = utf8([a[1]] * a[0])
             exp = "OK %x %s" % (len(eb), hx(eb + [0]))
             return out == exp, exp
+        if op == "join":
+            sep, parts = a
+            eb = utf8(intercalate(sep[3] if sep else [], [q[3] for q in parts]))
+            exp = "OK %x %s" % (len(eb), hx(eb + [0]))
+            return out == exp, exp
     except Exception as e:   # unparsable answer
         return False, "parsable answer (%s)" % e
     return None, ""
@@ -339,6 +382,11 @@ def inner_judge(c, out):
 
 def inner_sig(c):
     op, st, off, size, cs, a = c
+    if op == "join":
+        sep, parts = a
+        ws = sorted(set(width(c) for c in sep[3])) if sep else []
+        return "string-join:sep-%s:%s" % ("none" if sep is None else ("empty" if not ws else "w" + "".join(map(str, ws))),
+                                          "n%d" % min(len(parts), 3))
     if op == "set" and 0 <= a[1] < len(cs):
         return "string-set!:w%d->w%d:%s%s" % (width(cs[a[1]]), width(a[2]), "offset" if off else "own", ":cow" if a[0] else "")
     return "prim:%s:%s" % (op, "offset" if off else "own")
@@ -353,12 +401,14 @@ def check_inner(ctx, exe, emb, d, n):
         return
     nb = 0
     for c, l, m, i in zip(cases, lines, mo, io):
-        nontriv = any(x >= 0x80 for x in c[4]) or (c[0] in ("set", "mk") and c[5][-1] >= 0x80)
+        nontriv = any(x >= 0x80 for x in c[4]) or (c[0] in ("set", "mk") and c[5][-1] >= 0x80) or \
+            (c[0] == "join" and any(x >= 0x80 for q in ([c[5][0]] if c[5][0] else []) + c[5][1] for x in q[3]))
         ctx.count(1, key=l, nontrivial=nontriv)
         ctx.cov["traces_validated_against_impl"] += 1
         ok, exp = inner_judge(c, i)
         if ok is False:
-            ctx.violation(inner_sig(c), input=l, code_points=hx(c[4]), expected=exp, observed=i, model=m,
+            ctx.violation(inner_sig(c), input=l, code_points=(hx(c[4]) if c[0] != "join" else
+                          "sep=%s strings=%s" % (hx(c[5][0][3]) if c[5][0] else "#f", ";".join(hx(q[3]) for q in c[5][1]))), expected=exp, observed=i, model=m,
                           replay="echo '%s' | LD_LIBRARY_PATH=%s %s" % (l, d, emb))
         elif m != i:
             nb += 1
@@ -428,6 +478,15 @@ class Spec:
             if k == "T": return "= " + ("T" if V[op[1]][0] < V[op[2]][0] else "F")
             if k == "X": return "= %x" % op[2] if 0 <= op[2] <= len(V[op[1]][0]) else "E"
             if k == "P": return self.push([c + op[2] for c in V[op[1]][0]])
+            if k == "J":
+                which, sepi, vs = op[1], op[2], op[3]
+                if sepi >= len(V) or any(v >= len(V) for v in vs): return "E"
+                sep = V[sepi][0] if sepi >= 0 else []
+                ls = [V[v][0] for v in vs]
+                r = intercalate(sep, ls)
+                if which == 3 and ls: r = r + sep
+                if which == 4 and ls: r = sep + r
+                return self.push(r)
         except IndexError:
             return "E"
         raise ValueError(op)
@@ -441,6 +500,7 @@ def scm_op(op):
     if k == "H": return "(H (%s) (%s) %s)" % (sl(op[1]), sl(op[2]), sl(op[3]))
     if k == "A": return "(A %s)" % sl(op[1])
     if k == "R": return "(R %d %s)" % (op[1], "#t" if op[2] else "#f")
+    if k == "J": return "(J %d %d %s)" % (op[1], op[2], sl(op[3]))
     return "(%s %s)" % (k, sl(op[1:]))
 
 
@@ -495,8 +555,8 @@ def gen_history(rng, wide, maxlen=40):
         L = len(cs)
         idx = rng.choice([0, L - 1, L, rng.randrange(0, L + 1), rng.randrange(0, L + 1), -1, L + 1])
         core = ["S", "S", "S", "S", "U", "A", "C", "M", "L"]
-        k = rng.choice(core + (["F", "Y", "Y", "R", "W", "B", "G", "V", "E", "T", "X", "P", "H"] if wide else []))
-        if sum(len(x[0]) for x in spec.vars) > 400 and k in ("A", "M", "L", "H", "C", "U", "P"):
+        k = rng.choice(core + (["F", "Y", "Y", "R", "W", "B", "G", "V", "E", "T", "X", "P", "H", "J", "J"] if wide else []))
+        if sum(len(x[0]) for x in spec.vars) > 400 and k in ("A", "M", "L", "H", "C", "U", "P", "J"):
             k = "S"
         if k == "S":
             # aim at the width classes: pick the new width independently of the old one
@@ -547,6 +607,17 @@ def gen_history(rng, wide, maxlen=40):
         elif k == "P":
             if all(is_scalar(c + 1) for c in cs):
                 emit(("P", v, 1))
+        elif k == "J":
+            # separator: an existing variable (often one of the joined strings), a fresh short non-ASCII one, or none
+            r = rng.random()
+            if r < 0.45:
+                emit(("L", "list", rng.choice([[rng.choice(BY_WIDTH[rng.choice([2, 3, 4])])], [rand_cp(rng), rand_cp(rng)], []])))
+                sepi = len(spec.vars) - 1
+            elif r < 0.85:
+                sepi = rng.randrange(nv)
+            else:
+                sepi = -1
+            emit(("J", rng.choice([0, 0, 1, 1, 2, 3, 4]), sepi, [rng.randrange(nv) for _ in range(rng.choice([0, 1, 2, 2, 3, 4]))]))
     return ops
 
 
@@ -573,6 +644,16 @@ def systematic_histories(rng):
                     v = len(first) - 1
                     hs.append(first + [("S", v, len(a), new), ("W", v), ("B", v), ("R", v, True), ("G", v, len(a)), ("V", v),
                                        ("U", v, len(a)), ("A", [v, v]), ("S", v, len(a), old), ("X", v, len(cs))])
+    # string-join / string-concatenate: separator of every width class (fresh, shared with offset, literal), 0..4 strings
+    for w in (1, 2, 3, 4):
+        for kind in ("list", "shared", "literal"):
+            sep = [rng.choice(BY_WIDTH[w])] + ([rng.choice(BY_WIDTH[rng.choice([1, 2, 3, 4])])] if rng.random() < 0.5 else [])
+            first = {"list": ("L", "list", sep), "shared": ("H", [rng.randrange(256)], [rng.randrange(256)], sep), "literal": ("Q", sep)}[kind]
+            h = [first, ("L", "list", rand_cps(rng, 4)), ("L", "port", rand_cps(rng, 4)), ("L", "list", [])]
+            for which in (0, 1, 2, 3, 4):
+                for vs in ([], [1], [1, 2], [2, 3, 1], [1, 0, 2, 3]):
+                    h.append(("J", which, 0, vs))
+            hs.append(h)
     return hs
 
 
@@ -616,7 +697,7 @@ def hist_sig(h, k):
         return "string-set!:range"
     return "history:" + {"U": "substring", "A": "string-append", "C": "string-copy", "M": "make-string", "L": "construct", "Q": "literal", "H": "utf8->string!",
                          "F": "string-fill!", "Y": "string-copy!", "R": "read-char", "W": "cursor-next", "B": "cursor-prev", "G": "string-ref",
-                         "V": "string->vector", "E": "string=?", "T": "string<?", "X": "cursor->index", "P": "string-map"}.get(op[0], op[0])
+                         "V": "string->vector", "E": "string=?", "T": "string<?", "X": "cursor->index", "P": "string-map", "J": "string-join"}.get(op[0], op[0])
 
 
 def first_diff(exp, got):
@@ -720,6 +801,297 @@ def check_sweep(ctx, d):
                           observed=o, replay="chibi-scheme with harness/c12_hist.scm: (c12-sweep %d %d 1)" % (c, c + 1))
 
 
+
+# ------------------------------------------------------------------------------------------ ports (round 2)
+PORT_BUF, BUF_START = 4096, 4
+PORT_KINDS_BIG = ["fd", "fd", "fd", "file", "bytevector", "string"]
+
+
+def filler(rng, nbytes, newline_every):
+    """characters occupying exactly nbytes bytes: mostly ASCII, some 2/3/4-byte scalars, a line end (LF or CRLF) now and then"""
+    cs, left, since = [], nbytes, 0
+    while left > 0:
+        if since > newline_every and left >= 2:
+            if rng.random() < 0.3:
+                cs += [0x0D, 0x0A]; left -= 2
+            else:
+                cs.append(0x0A); left -= 1
+            since = 0
+            continue
+        c = rng.randrange(0x20, 0x7F) if rng.random() < 0.8 else rand_cp(rng)
+        if c in (0x0A, 0x0D) or width(c) > left:
+            c = rng.randrange(0x20, 0x7F)
+        cs.append(c); left -= width(c); since += width(c)
+    return cs
+
+
+def stream_with_targets(rng, targets, tail):
+    """targets: sorted (byte offset, code point): the code point's first byte lands on that offset"""
+    cs, n = [], 0
+    for off, c in targets:
+        if off < n:
+            continue
+        cs += filler(rng, off - n, rng.choice([300, 900, 2500]))
+        cs.append(c)
+        n = off + width(c)
+    return cs + filler(rng, tail, 200)
+
+
+class PortSpec:
+    """the SPEC: the port is the list of scalar values the bytes denote; every operation consumes a prefix"""
+    def __init__(self, cs):
+        self.cs, self.pos = cs, 0
+
+    def step(self, op):
+        cs, pos = self.cs, self.pos
+        if op == "r":
+            if pos >= len(cs): return "eof"
+            self.pos += 1
+            return "c%x" % cs[pos]
+        if op == "p":
+            return "eof" if pos >= len(cs) else "c%x" % cs[pos]
+        if op == "c":
+            return "T" if pos < len(cs) else None          # at end of file R7RS allows either answer
+        if op == "l":
+            if pos >= len(cs): return "eof"
+            j = pos
+            while j < len(cs) and cs[j] != 0x0A:
+                j += 1
+            line = cs[pos:j]
+            if j < len(cs) and line and line[-1] == 0x0D:
+                line = line[:-1]
+            self.pos = min(j + 1, len(cs))
+            return "l:" + hx(line)
+        if op == "d":
+            self.pos = len(cs)
+            return "d:" + hx(cs[pos:])
+        if op[0] == "s":
+            k = op[1]
+            if k == 0: return "s:_"
+            if pos >= len(cs): return "eof"
+            self.pos = min(len(cs), pos + k)
+            return "s:" + hx(cs[pos:pos + k])
+        raise ValueError(op)
+
+
+def gen_port_ops(rng, cs, hot, allow_u):
+    """ops over the stream: bulk operations far from the refill boundaries, character-level mixes of peek-char /
+    read-char / char-ready? / read-u8 / short read-string near them; returns (ops, expected fields)"""
+    offs = [0]
+    for c in cs:
+        offs.append(offs[-1] + width(c))
+    hot = sorted(hot)
+    sp, ops, exp = PortSpec(cs), [], []
+
+    def emit(op):
+        if op == "u":       # read-u8 for every byte of the next character (stays on a character boundary)
+            if sp.pos >= len(cs):
+                ops.append("u"); exp.append("eof")
+                return
+            for b in utf8([cs[sp.pos]]):
+                ops.append("u"); exp.append("u%x" % b)
+            sp.pos += 1
+            return
+        ops.append(op); exp.append(sp.step(op))
+
+    while sp.pos < len(cs) and len(ops) < 6000:
+        here = offs[sp.pos]
+        ahead = [b for b in hot if b + 8 >= here]
+        dist = min([abs(b - here) for b in hot] + [10 ** 9])
+        if dist > 24:
+            goal = (ahead[0] - rng.randrange(4, 20)) if ahead else offs[-1]
+            k = 0
+            while sp.pos + k < len(cs) and offs[sp.pos + k] < goal:
+                k += 1
+            k = max(1, k)
+            r = rng.random()
+            if not ahead and r < 0.4:
+                emit("d")
+            elif r < 0.55:
+                emit(("s", k))
+            elif r < 0.8:
+                emit("l")
+            else:
+                for _ in range(min(k, rng.choice([1, 3, 30]))):
+                    emit(rng.choice(["r", "r", "p"]))
+        else:
+            r = rng.random()
+            if r < 0.40: emit("p"); emit("r")
+            elif r < 0.55: emit("r")
+            elif r < 0.65: emit("p"); emit("p"); emit("r")
+            elif r < 0.72: emit("c"); emit("p"); emit("r")
+            elif r < 0.80: emit(("s", rng.choice([1, 2, 3])))
+            elif r < 0.88 and allow_u: emit("u")
+            elif r < 0.90: emit("l")
+            else: emit("p"); emit(("s", 1))
+    for op in ("p", "r", "c", "d", "r"):
+        emit(op)
+    return ops, exp
+
+
+def port_op_scm(op):
+    return op if isinstance(op, str) else "(s %d)" % op[1]
+
+
+def port_op_model(op):
+    return op if isinstance(op, str) else "s%x" % op[1]
+
+
+def gen_port_cases(ctx, n_big, n_custom):
+    rng = ctx.rng
+    cases = []          # (kind, cs, sched, hot, ops, exp)
+    MB = [c for w in (2, 3, 4) for c in BY_WIDTH[w]]
+    # (1) real buffer boundaries: fd ports refill 4092 bytes at a time (boundaries at multiples of 4092); FILE* /
+    #     other layers at multiples of 4096.  A multi-byte character starts k bytes before the boundary, k = 0..width.
+    big = []
+    for base in (PORT_BUF - BUF_START, PORT_BUF):
+        for w in (2, 3, 4):
+            for k in range(0, w + 1):
+                big.append((base, w, k))
+    rng.shuffle(big)
+    systematic = [(PORT_BUF - BUF_START, w, k) for w in (2, 3, 4) for k in range(1, w)]     # the straddling ones on the fd arm first
+    plan = systematic + big
+    for n in range(n_big):
+        base, w, k = plan[n % len(plan)]
+        kind = "fd" if n < len(systematic) else rng.choice(PORT_KINDS_BIG)
+        c1 = rng.choice(BY_WIDTH[w])
+        w2 = rng.choice([2, 3, 4])
+        c2 = rng.choice(BY_WIDTH[w2])
+        k2 = rng.randrange(0, w2 + 1)
+        targets = [(base - k, c1), (2 * base - k2, c2)]
+        # neighbours of the straddling character are multi-byte too, now and then
+        if rng.random() < 0.5:
+            c0 = rng.choice(MB)
+            targets.insert(0, (base - k - width(c0), c0))
+        cs = stream_with_targets(rng, sorted(targets), rng.choice([3, 40, 700]))
+        hot = [base, 2 * base]
+        ops, exp = gen_port_ops(rng, cs, hot, kind != "string")
+        cases.append((kind, cs, [], hot, ops, exp))
+    # (2) custom ports: the reader delivers the bytes in chunks of 1..6, so every character of a short stream is cut
+    #     by refill boundaries in every possible way
+    for n in range(n_custom):
+        cs = [rand_cp(rng) if rng.random() < 0.7 else rng.choice([0x0A, 0x20, 0x41]) for _ in range(rng.choice([1, 2, 4, 8, 16, 40]))]
+        cs = [c for c in cs if c != 0x0D]
+        nb = len(utf8(cs))
+        sched = []
+        while sum(sched) < nb and len(sched) < 64:
+            sched.append(rng.choice([1, 1, 2, 3, 4, 5, 6]) if rng.random() < 0.9 else rng.randrange(7, 30))
+        hot, acc = [], 0
+        for x in sched:
+            acc += x
+            hot.append(acc)
+        ops, exp = gen_port_ops(rng, cs, hot, True)
+        cases.append(("custom", cs, sched, hot, ops, exp))
+    return cases
+
+
+def port_where(cs, hot, ops, k):
+    """does the character the failing op looks at straddle / touch a refill boundary?"""
+    sp = PortSpec(cs)
+    for op in ops[:k]:
+        if op == "u":
+            continue
+        sp.step(op)
+    offs = [0]
+    for c in cs:
+        offs.append(offs[-1] + width(c))
+    if sp.pos < len(cs):
+        a, b = offs[sp.pos], offs[sp.pos + 1]
+        if any(a < h < b for h in hot):
+            return "straddles-refill"
+        if any(abs(h - a) <= 4 for h in hot):
+            return "near-refill"
+    return "plain"
+
+
+def check_ports(ctx, exe, d, n_big, n_custom, n_write):
+    pdir = os.path.join(B.SCRATCH, "c12-ports")
+    os.makedirs(pdir, exist_ok=True)
+    cases = gen_port_cases(ctx, n_big, n_custom)
+    prelude = open(os.path.join(HARNESS, "c12_hist.scm")).read()
+    exprs, mlines = [], []
+    for n, (kind, cs, sched, hot, ops, exp) in enumerate(cases):
+        path = os.path.join(pdir, "in-%d.bin" % n)
+        with open(path, "wb") as fh:
+            fh.write(bytes(utf8(cs)))
+        exprs.append("(c12-port-run '%s \"%s\" '(%s) '(%s))" % (kind, path, " ".join(map(str, sched)), " ".join(port_op_scm(o) for o in ops)))
+        mlines.append("port %s %x %s %s %s" % ("f" if kind in ("fd", "custom") else "s", PORT_BUF, hx(utf8(cs)), hx(sched),
+                                               ",".join(port_op_model(o) for o in ops)))
+    mo = ctx.run_model(exe, mlines)
+    res = scm.run_cases(d, exprs, prelude_extra=prelude, imports=IMPORTS, chunk=40, timeout=60)
+    reported, nb = 0, 0
+    for n, (kind, cs, sched, hot, ops, exp) in enumerate(cases):
+        got = parse_fields(res[n]) if res[n] and not res[n].startswith(("TIMEOUT", "CRASH", "ERR")) else None
+        nontriv = any(c >= 0x80 for c in cs)
+        ctx.count(1, key=("port", kind, tuple(cs), tuple(sched), tuple(ops)), nontrivial=nontriv)
+        ctx.cov["traces_validated_against_impl"] += 1
+        mf = mo[n].split(" | ")
+        bad = None
+        if got is None:
+            bad = 0
+        else:
+            for k, e in enumerate(exp):
+                if k >= len(got) or (e is not None and got[k] != e) or (e is None and got[k] not in ("T", "F")):
+                    bad = k
+                    break
+        # the extracted model must agree with the SPEC on every field (three-way)
+        for k, e in enumerate(exp):
+            if e is not None and (k >= len(mf) or mf[k] != e):
+                nb += 1
+                if nb <= 5:
+                    ctx.broken("correspondence:port-model-vs-spec", "%s op %d (%s): model %r, SPEC %r" % (mlines[n][:200], k, ops[k], mf[k] if k < len(mf) else None, e))
+                break
+        if bad is not None:
+            reported += 1
+            if reported > 12:
+                continue
+            cut = ops[:bad + 1]
+            txt = "(c12-port-run/bytes '%s \"%s\" '(%s) '(%s) '(%s))" % (kind, os.path.join(pdir, "replay.bin"), " ".join(map(str, utf8(cs))),
+                                                                         " ".join(map(str, sched)), " ".join(port_op_scm(o) for o in cut))
+            opn = ops[bad] if isinstance(ops[bad], str) else "s"
+            name = {"r": "read-char", "p": "peek-char", "c": "char-ready?", "u": "read-u8", "l": "read-line", "d": "read-char", "s": "read-string"}[opn]
+            if got is None:
+                ctx.violation("crash-or-hang:port:%s" % kind, input=txt, expected=" | ".join(str(e) for e in exp[:6]), observed=str(res[n])[:300],
+                              replay="./check C12 --replay <this file>")
+            else:
+                ctx.violation("port:%s:%s:%s" % (kind, name, port_where(cs, hot, ops, bad)), input=txt, step=bad, expected=exp[bad],
+                              observed=(got[bad] if bad < len(got) else "missing"), model=(mf[bad] if bad < len(mf) else None),
+                              code_points_around=hx(cs[max(0, PortSpec(cs).pos):][:0]) or None,
+                              replay="./check C12 --replay <this file>   # or: chibi-scheme with vlib/scm.py PRELUDE + harness/c12_hist.scm, then " + txt[:200] + " ...")
+    if cases:
+        ctx.sample(dict(kind="port", request=exprs[0][:300], impl=str(res[0])[:300], model=mo[0][:300]))
+    # write-char: the bytes that reach get-output-string / the file are the standard encoding; multi-byte characters cut by
+    # the 4096-byte output buffer in every way
+    wcases = []
+    for n in range(n_write):
+        w = rng_w = ctx.rng.choice([2, 3, 4])
+        k = ctx.rng.randrange(0, w + 1)
+        m = ctx.rng.choice([1, 1, 2])
+        pre = filler(ctx.rng, m * PORT_BUF - k - ctx.rng.choice([0, 0, 1]), 10 ** 9)
+        cs = pre + [ctx.rng.choice(BY_WIDTH[w])] + [rand_cp(ctx.rng) for _ in range(ctx.rng.choice([0, 1, 5]))]
+        wcases.append((ctx.rng.choice(["string", "string", "file", "fd"]), cs))
+    wexprs = ["(c12-write-run '%s \"%s\" '(%s))" % (kind, os.path.join(pdir, "out-%d.bin" % n), " ".join(map(str, cs))) for n, (kind, cs) in enumerate(wcases)]
+    wmo = ctx.run_model(exe, ["wport %x %s" % (PORT_BUF, hx(cs)) for kind, cs in wcases])
+    wres = scm.run_cases(d, wexprs, prelude_extra=prelude, imports=IMPORTS, chunk=20, timeout=60)
+    for (kind, cs), e, m, r in zip(wcases, wexprs, wmo, wres):
+        exp = hx(utf8(cs))
+        ctx.count(1, key=("wport", kind, tuple(cs)), nontrivial=True)
+        ctx.cov["traces_validated_against_impl"] += 1
+        got = (r or "").strip('"')
+        if m.split(" ")[:2] != ["OK", exp]:
+            ctx.broken("correspondence:wport-model-vs-spec", "write-char model differs from the standard encoding on %s" % e[:200])
+        if got != exp:
+            gl, el = unhx(got) if got and not got.startswith(("ERR", "CRASH", "TIMEOUT")) else [], unhx(exp)
+            k = next((i for i in range(min(len(gl), len(el))) if gl[i] != el[i]), min(len(gl), len(el)))
+            ctx.violation("port:%s:write-char" % kind, input=e, expected="bytes %s… (first difference at byte %d: %s)" % (exp[:60], k, hx(el[k:k + 4])),
+                          observed="%s" % (hx(gl[k:k + 4]) if gl else str(r)[:200]), replay="chibi-scheme with harness/c12_hist.scm: " + e[:300])
+    try:
+        import shutil
+        shutil.rmtree(pdir)
+    except OSError:
+        pass
+
+
 # ------------------------------------------------------------------------------------------ driver
 def run(ctx):
     ctx.cov["rule"] = (
@@ -744,6 +1116,7 @@ def run(ctx):
     check_inner(ctx, exe, emb, d, 2500 if not ctx.thorough else 120000)
     check_outer(ctx, exe, d, 500 if not ctx.thorough else 30000, 900 if not ctx.thorough else 70000)
     check_sweep(ctx, d)
+    check_ports(ctx, exe, d, *( (60, 500, 24) if not ctx.thorough else (1500, 30000, 400) ))
     ctx.assume("configuration: SEXP_USE_UTF8_STRINGS=1, mutable strings, no string index table, no string-ref cache (the defaults)")
     ctx.assume("strings sharing one byte store with another live string or bytevector (only utf8->string! creates them) are outside the "
                "history theorem; the aliasing theorem says exactly when a store is written in place")
